@@ -359,9 +359,13 @@ func (*Ufs) Walk(req *SrvReq) {
 		path = p
 	}
 
-	nfid.path = path
-	if req.Newfid.Aux == nil {
-		req.Newfid.Aux = nfid
+	/* the new fid designates the file only if every name was walked; a
+	 * partial walk leaves both fids as they were */
+	if i == len(tc.Wname) {
+		nfid.path = path
+		if req.Newfid.Aux == nil {
+			req.Newfid.Aux = nfid
+		}
 	}
 	req.RespondRwalk(wqids[0:i])
 }
